@@ -483,8 +483,12 @@ def handle (d : DS) (line : String) : DS × String :=
         (d, snapshot d)
     | none => (d, "bad-op")
   | ["cancelfut", tag] =>
-    match tag.toNat?.bind (idxOf d) with
-    | some k => let d := prim d (.cancelFut k); (d, snapshot d)
+    match tag.toNat? with
+    | some tag =>
+      -- (the request of a handler may not exist (yet): nothing to cancel)
+      match idxOf d tag with
+      | some k => let d := prim d (.cancelFut k); (d, snapshot d)
+      | none => (d, snapshot d)
     | none => (d, "bad-op")
   | ["canceltask", tag] =>
     match tag.toNat?.bind (idxOf d) with
